@@ -648,6 +648,13 @@ func runC02(c *Ctx) {
 			}
 		}
 	}
+	// the modelled block-level mechanisms (list items, thematic breaks, ATX headings, fences)
+	nli := 4000
+	if !c.Quick() {
+		nli = 200000
+	}
+	listItemCases(c, nli)
+	leafBlockCases(c, 0)
 	var curS string
 	c.watchdog(120*time.Second, "spec-rewrite-hang", func() interface{} { return map[string]string{"markdown": curS} }, func() { specRewrites(c, mds[0], &curS) })
 }
